@@ -140,6 +140,23 @@ func Answer(req *dns.Msg, tag string, alwaysAD bool) (resp *dns.Msg) {
 			return &dns.A{Hdr: hdr(dns.TypeA, ttl), A: net.IP{10, byte(h >> 8), byte(h), salt}}
 		case dns.TypeAAAA:
 			return &dns.AAAA{Hdr: hdr(dns.TypeAAAA, ttl), AAAA: net.IP{0x20, 1, 0xd, 0xb8, byte(h >> 24), byte(h >> 16), byte(h >> 8), byte(h), 0, 0, 0, 0, 0, 0, 0, salt}}
+		case dns.TypeMX:
+			return &dns.MX{Hdr: hdr(dns.TypeMX, ttl), Preference: 10 + uint16(salt), Mx: "mx" + string('a'+rune(salt)) + ".test."}
+		case dns.TypeSRV:
+			// All four numbers differ, so that a clone that mixes two of them
+			// up is visible.
+			return &dns.SRV{Hdr: hdr(dns.TypeSRV, ttl), Priority: 10 * uint16(salt), Weight: 60 - uint16(salt), Port: 5000 + uint16(h%1000), Target: "srv" + string('a'+rune(salt)) + ".test."}
+		case dns.TypePTR:
+			return &dns.PTR{Hdr: hdr(dns.TypePTR, ttl), Ptr: "ptr" + string('a'+rune(salt)) + ".test."}
+		case dns.TypeHTTPS:
+			return &dns.HTTPS{SVCB: dns.SVCB{Hdr: hdr(dns.TypeHTTPS, ttl), Priority: uint16(salt), Target: "svc" + string('a'+rune(salt)) + ".test.", Value: []dns.SVCBKeyValue{
+				&dns.SVCBAlpn{Alpn: []string{"h2", "h3"}},
+				&dns.SVCBPort{Port: 8000 + uint16(h%1000)},
+				&dns.SVCBIPv4Hint{Hint: []net.IP{{10, byte(h >> 8), byte(h), salt}, {10, 1, 2, salt}}},
+				&dns.SVCBECHConfig{ECH: []byte{byte(h), salt, 7}},
+				&dns.SVCBIPv6Hint{Hint: []net.IP{{0x20, 1, 0xd, 0xb8, byte(h >> 8), byte(h), 0, 0, 0, 0, 0, 0, 0, 0, 0, salt}}},
+				&dns.SVCBDoHPath{Template: "/dns-query{?dns}"},
+			}}}
 		default:
 			return &dns.TXT{Hdr: hdr(q.Qtype, ttl), Txt: []string{key, string('a' + rune(salt))}}
 		}
@@ -220,6 +237,31 @@ func Answer(req *dns.Msg, tag string, alwaysAD bool) (resp *dns.Msg) {
 	}
 
 	return resp
+}
+
+// ServerEdits does to resp, in place, what the DNS server's response writer
+// does to a response that does not fit the client's UDP buffer (normalize and
+// truncate in internal/dnsserver): TC is set, the records are removed, the OPT
+// record is rewritten and compression is switched on.  The harness's response
+// writers call it on the message they were given, after having copied it, so
+// that a handler which keeps using (or caching) the very object it wrote sees
+// what it would see behind a real server.
+func ServerEdits(resp *dns.Msg) {
+	resp.Truncated = true
+	resp.Answer = nil
+	resp.Ns = nil
+	resp.Compress = true
+
+	var extra []dns.RR
+	for _, rr := range resp.Extra {
+		if opt, ok := rr.(*dns.OPT); ok {
+			opt.SetUDPSize(512)
+			opt.Hdr.Ttl &= 0xff00
+			extra = append(extra, opt)
+		}
+	}
+
+	resp.Extra = extra
 }
 
 // Cacheable tells, from the statement of C04 ("only complete NOERROR/NODATA,
